@@ -106,3 +106,16 @@ Theorem C13_truncated_off_is_gone :
   forall l n i it, Inv l -> nth_error (items l) i = Some it -> n <= i -> gone (il_truncate l n) (iname it).
 Proof. exact truncated_off_gone. Qed.
 Print Assumptions C13_truncated_off_is_gone.
+
+(* the full observational statement: after EVERY history that keeps names unique, iteration, length,
+   lookup by name, index and key membership are those of the plain vector the history builds *)
+Theorem C13_history_every_observer_is_the_vector :
+  forall ops l, Inv l -> ops_ok (items l) ops ->
+  exists l', run l ops = Ok l' /\
+    il_iter l' = spec_run (items l) ops /\
+    il_len l' = length (spec_run (items l) ops) /\
+    forall k, il_get l' k = Ok (spec_get (spec_run (items l) ops) k) /\
+              il_index l' k = find_idx k (spec_run (items l) ops) /\
+              il_contains_key l' k = match find_idx k (spec_run (items l) ops) with Some _ => true | None => false end.
+Proof. exact history_observers. Qed.
+Print Assumptions C13_history_every_observer_is_the_vector.
